@@ -379,8 +379,21 @@ impl<VM: VMBinding> LargeObjectSpace<VM> {
         object
     }
 
+    /// The members of the four treadmill sets (from, to, collect nursery, alloc nursery).
+    #[cfg(mmtk_verif)]
+    pub fn verif_treadmill_sets(&self) -> [Vec<ObjectReference>; 4] {
+        self.treadmill.verif_sets()
+    }
+
     fn sweep_large_pages(&mut self, sweep_nursery: bool) {
         let sweep = |object: ObjectReference| {
+            #[cfg(mmtk_verif)]
+            crate::util::verif::rt::event(
+                crate::util::verif::rt::ev::LOS_SWEEP,
+                object.to_raw_address().as_usize(),
+                sweep_nursery as usize,
+                0,
+            );
             #[cfg(feature = "vo_bit")]
             crate::util::metadata::vo_bit::unset_vo_bit(object);
             // Clear log bits for dead objects to prevent a new nursery object having the unlog bit set
